@@ -49,48 +49,6 @@ Fixpoint spec_run (s : smap) (h : list op) : smap * list sres :=
 Definition spec_state (h : list op) : smap := fst (spec_run [] h).
 Definition spec_results (h : list op) : list sres := snd (spec_run [] h).
 
-(* ---- the known-deviation classes, stated on the flat map only.
-   A removal *empties* p when afterwards none of K1..K3 is registered there (the object manager
-   does not count, as in the documentation of `remove`: "if there are no more interfaces left at
-   that path, destroys the object"). *)
-Definition user_kinds : list kind := [K1; K2; K3].
-Definition emptied (s : smap) (p : path) : bool :=
-  forallb (fun k => match sget s p k with None => true | Some _ => false end) user_kinds.
-
-Definition has_descendant (s : smap) (p : path) : bool :=
-  existsb (fun e => strict_prefix p (fst (fst e))) s.
-
-Inductive dev24 := ManagerDropped.
-
-(* The one class left after fix f5fe3276 (the root is never destroyed, a node with children is kept):
-   a removal that leaves none of K1..K3 at a non-root path where an ObjectManager is registered, while
-   nothing is registered strictly below.  Node::is_empty does not count the manager, so the node is
-   destroyed with it — unless interface-less child nodes happen to keep it alive, which the flat map
-   cannot see: the class is an over-approximation of the histories that deviate. *)
-Definition flag24 (s : smap) (o : op) : option dev24 :=
-  match o with
-  | At _ _ _ => None
-  | Rm p k =>
-      match sget s p k with
-      | None => None
-      | Some _ =>
-          let s' := sdel s p k in
-          if emptied s' p then
-            match p with
-            | [] => None
-            | _ :: _ =>
-                if has_descendant s' p then None
-                else match sget s' p KM with Some _ => Some ManagerDropped | None => None end
-            end
-          else None
-      end
-  end.
-
-(* first flagged step of a history, following the flat map *)
-Fixpoint first_flag (s : smap) (h : list op) : option dev24 :=
-  match h with
-  | [] => None
-  | o :: r => match flag24 s o with Some d => Some d | None => first_flag (fst (spec_step s o)) r end
-  end.
-
-Definition Known_C24 (h : list op) : Prop := first_flag [] h <> None.
+(* No known-deviation class is left: since fixes f5fe3276 (the root is never destroyed, a node with
+   children is kept) and 71f8bd70 (an ObjectManager keeps its node alive) the refinement theorem of
+   Properties/C24.v holds for every history. *)
